@@ -39,6 +39,17 @@ Definition ravelC (A : dense D) : list D :=
 Definition reshapeC2 (m n : nat) (l : list D) : list (list D) :=
   map (fun i => firstn n (skipn (i * n) l)) (seq 0 m).
 
+(* ORDER 0 (/repo b512e35, repairing finding C16-N2).  pyttb has exactly one dense tensor without modes, ttb.tensor(): shape (),
+   data = the 1-d array of length 0 (the constructor refuses any entry: "Empty tensor cannot contain any elements"), so it
+   holds NO entry although np.prod(()) = 1: [tsize] is `np.prod(shape) if shape else 0` of import_data, [tensor_vals] what
+   data.data.transpose().tofile writes, [tensor_of] what ttb.tensor(data, shape, copy=False) builds from the values read *)
+Definition tsize (s : shape) : nat := match s with [] => 0 | _ => size s end.
+Definition tensor_vals (X : dense D) : list D :=
+  match dshape X with [] => [] | _ => ravelC (transpose_all X) end.
+Definition tensor_of (s : shape) (l : list D) : dense D :=
+  match s with [] => mkDense [] l | _ => np_reshapeF d0 (mkDense [size s] l) s end.
+Definition wf_tensor (X : dense D) : Prop := length (ddata X) = tsize (dshape X).
+
 (* ------------------------------------------------------------------ export_data *)
 Definition zn (n : nat) : token := Int (Z.of_nat n).
 Definition num (v : D) : token := Num (print v).
@@ -59,7 +70,7 @@ Definition factor_lines (R : nat) (A : list (list D)) : list line :=
 Definition export_lines (b : Z) (o : obj) : list line :=
   match o with
   | OTensor X =>
-      [Word "tensor"%string] :: size_lines (dshape X) ++ one_per_line (ravelC (transpose_all X))
+      [Word "tensor"%string] :: size_lines (dshape X) ++ one_per_line (tensor_vals X)
   | OSptensor Sp =>
       [Word "sptensor"%string] :: size_lines (sshape Sp) ++ [zn (length (ssubs Sp))] :: map (entry_line b) (entries Sp)
   | OKtensor K =>
@@ -137,9 +148,9 @@ Fixpoint rd_factors (n : nat) (toks : list token) : option (list (list (list D))
   end.
 
 Definition import_tensor (toks : list token) : option obj :=
-  p <- rd_shape toks ;; v <- rd_nums (size (fst p)) (snd p) ;;
+  p <- rd_shape toks ;; v <- rd_nums (tsize (fst p)) (snd p) ;;
   (* ttb.tensor(data, shape): F-order reshape of the 1-d array read *)
-  Some (OTensor (np_reshapeF d0 (mkDense [size (fst p)] (fst v)) (fst p))).
+  Some (OTensor (tensor_of (fst p) (fst v))).
 
 Definition import_sptensor (b : Z) (toks : list token) : option obj :=
   p <- rd_shape toks ;; nz <- rd_nat (snd p) ;; e <- rd_entries b (length (fst p)) (fst nz) (snd nz) ;;
@@ -173,7 +184,7 @@ Definition import (b : Z) (toks : list token) : option obj :=
 (* what export_data may be given: the class invariants of the four object kinds *)
 Definition wf_obj (o : obj) : Prop :=
   match o with
-  | OTensor X => wf_dense X
+  | OTensor X => wf_tensor X          (* = wf_dense X for every order >= 1; the tensor without modes holds no entry *)
   | OSptensor Sp =>
       length (ssubs Sp) = length (svals Sp) /\ Forall (fun i => inb (sshape Sp) i = true) (ssubs Sp)
   | OKtensor K => Forall (fun A => Forall (fun r => length r = krank K) A) (kfactors K)
